@@ -352,6 +352,13 @@ def uniform_in_index(fn_node, loop):
                 names = {x.id for x in ast.walk(other) if isinstance(x, ast.Name)}
                 if not (names & assigned) and (isinstance(p.ops[0], (ast.Eq, ast.NotEq)) or _is_boundary(other, fn_node, loop)):
                     continue
+            # a parallel list read at the current position: flags = [f(x) for x in xs] ... flags[idx]  is  f(current element)
+            if isinstance(p, ast.Subscript) and p.slice is n and isinstance(p.ctx, ast.Load) and isinstance(p.value, ast.Name):
+                from .ctxuse import single_defs as _sd
+                ds_ = _sd(fn_node).get(p.value.id, [])
+                if len(ds_) == 1 and isinstance(ds_[0], ast.ListComp) and len(ds_[0].generators) == 1 \
+                        and src(ds_[0].generators[0].iter) == src(xs) and not ds_[0].generators[0].ifs:
+                    continue
             # in-place replacement of the current element: xs[idx] = ...
             if isinstance(p, ast.Subscript) and p.slice is n and isinstance(p.ctx, ast.Store):
                 continue
